@@ -258,7 +258,42 @@ def long_cases(errs):
                 errs.append(("rejection-maximum-weight-sample-not-kept", f"long-{name}-{N}"))
             if np.any(~np.isfinite(lw[idx])):
                 errs.append(("rejection-kept-zero-weight-sample", f"long-{name}-{N}"))
+    # weights not given but derived from the number of live points (int or per-iteration array): the
+    # default number of multinomial draws is still int(ESS) of the weights that are used, and the
+    # rejection step uses the same weights
+    from nessai.posterior import compute_weights
+
+    for N in (12, 60, 300):
+        ns = nested(N)
+        ns["logL"] = np.sort(np.concatenate([np.arange(N - N // 3) * 0.25, np.full(N // 3, (N - N // 3) * 0.25)]))  # with a plateau
+        for nl in (1, 5, N, np.concatenate([np.full(N - 5, 5.0), np.arange(5, 0, -1.0)])):
+            for expectation in ("logt", "t"):
+                with np.errstate(all="ignore"):
+                    _, lw_own = compute_weights(ns["logL"], nl if np.isscalar(nl) else nl.copy(), expectation=expectation)
+                ess_own = kish_float(np.asarray(lw_own, dtype=float))
+                for method in ("multinomial_resampling", "importance_sampling"):
+                    np.random.seed(5)
+                    try:
+                        with np.errstate(all="ignore"):
+                            post, idx = draw_posterior_samples(ns, nlive=nl if np.isscalar(nl) else nl.copy(), method=method, expectation=expectation, return_indices=True)
+                    except TypeError:
+                        post, idx = draw_posterior_samples(ns, nlive=nl if np.isscalar(nl) else nl.copy(), method=method, return_indices=True) if expectation == "logt" else (None, None)
+                    except Exception as e:
+                        errs.append((f"nlive-path-raises-{type(e).__name__}", f"{e} N={N} nlive={nl if np.isscalar(nl) else 'schedule'} {method}"))
+                        continue
+                    if post is None:
+                        continue
+                    n_eval += 1
+                    if len(post) != int(ess_own) or post.tobytes() != ns[idx].tobytes():
+                        errs.append(("nlive-path:multinomial-number-of-draws-is-not-int-ESS-of-the-weights-used", f"{len(post)} vs int({ess_own}) N={N} nlive={nl if np.isscalar(nl) else 'schedule'} {method} {expectation}"))
     return n_eval
+
+
+def kish_float(lw):
+    m = np.max(lw[np.isfinite(lw)])
+    w = np.exp(lw - m)
+    w = np.where(np.isfinite(w), w, 0.0)
+    return float(w.sum() ** 2 / np.sum(w * w))
 
 
 def run(ctx):
